@@ -52,6 +52,16 @@ def frame_of(p: str) -> bytes:
     raise ValueError(p)
 
 
+class ObservedConnection(APIConnection):
+    """the real connection; the first error handed to report_fatal_error is remembered for the oracle"""
+    __slots__ = ("first_reported",)
+
+    def report_fatal_error(self, err):
+        if getattr(self, "first_reported", None) is None:
+            self.first_reported = err
+        super().report_fatal_error(err)
+
+
 class Bench:
     def __init__(self, login=False, keepalive=20.0, noise=False):
         self.net = simnet.Net(base=5000.0)
@@ -63,7 +73,7 @@ class Bench:
                                   noise_psk=("QRTIErOb/fcE9Ukd/5qA3RGYMn0Y+p06U58SCtOXvPc=" if noise else None),
                                   expected_name=EXPECTED)
         self.stops = []
-        self.conn = APIConnection(params, lambda e: self.stops.append(e), False, None)
+        self.conn = ObservedConnection(params, lambda e: self.stops.append(e), False, None)
         self.deliv = 0
         self.conn.add_message_callback(self._on_state, (pb.SensorStateResponse,))
         self.tasks = {}
